@@ -2,6 +2,7 @@ package props
 
 import (
 	"fmt"
+	"runtime"
 	"runtime/debug"
 	"sync/atomic"
 
@@ -86,6 +87,7 @@ func runC16(c *Ctx) {
 	p1 := &explore.Product{Name: "AddOffset / AddOffset64 x offsets", Dims: []int{len(pool)}, Deadline: c.Budget(40, 700), Execs: &oexecs,
 		Run: func(idx []int) (string, *ev.Fail) {
 			src := pool[idx[0]].Build()
+			defer runtime.KeepAlive(src)
 			L := src.M.Slice()
 			for _, d := range offsetAlphabet(src.M) {
 				if d <= -(1<<32) || d >= 1<<32 {
@@ -134,6 +136,7 @@ func runC16(c *Ctx) {
 	p2 := &explore.Product{Name: "static Flip vs in-place Flip x boundary ranges", Dims: []int{len(corpus)}, Deadline: c.Budget(70, 1100), Execs: &fexecs,
 		Run: func(idx []int) (string, *ev.Fail) {
 			src := corpus[idx[0]].Build()
+			defer runtime.KeepAlive(src)
 			if len(src.M.Keys()) > 12 {
 				return "skipped-many-chunks", nil
 			}
@@ -188,6 +191,7 @@ func runC16(c *Ctx) {
 	p3 := &explore.Product{Name: "ToDense / WriteDenseTo / FromDense / BitSet on corpus states", Dims: []int{len(corpus)}, Deadline: c.Budget(85, 1300), Execs: &dexecs,
 		Run: func(idx []int) (string, *ev.Fail) {
 			src := corpus[idx[0]].Build()
+			defer runtime.KeepAlive(src)
 			mx, ok := src.M.Max()
 			if ok && mx >= 1<<22 {
 				return "skipped-large-universe", nil
